@@ -281,18 +281,8 @@ func stuckDump() string {
 
 // timedServe runs one request with the per-request deadline; hung = it did not return
 func timedServe(e *stressEnv, q reqSpec) (hung bool, panicked any) {
-	type out struct{ p any }
-	ch := make(chan out, 1)
-	go func() {
-		_, p := serve(e.srv, q)
-		ch <- out{p}
-	}()
-	select {
-	case o := <-ch:
-		return false, o.p
-	case <-time.After(reqDeadline):
-		return true, nil
-	}
+	_, p, h := serveDeadline(e.srv, q, reqDeadline)
+	return h, p
 }
 
 type seqStep struct {
@@ -380,6 +370,7 @@ func stressServer(seed int64, dur time.Duration, nobcrypt bool) stressResult {
 		var progress int64
 		current := make([]atomic.Value, nw)
 		started := make([]int64, nw)
+		wgid := make([]atomic.Value, nw) // goroutine id of each worker (its requests run in it)
 		var wg sync.WaitGroup
 		done := make(chan struct{})
 		start := make(chan struct{})
@@ -387,6 +378,7 @@ func stressServer(seed int64, dur time.Duration, nobcrypt bool) stressResult {
 			wg.Add(1)
 			go func(w int) {
 				defer wg.Done()
+				wgid[w].Store(goroutineID())
 				r := rand.New(rand.NewSource(seed*1000003 + int64(round)*101 + int64(w)))
 				local := map[string]int{}
 				var panics []string
@@ -434,17 +426,29 @@ func stressServer(seed int64, dur time.Duration, nobcrypt bool) stressResult {
 				p := atomic.LoadInt64(&progress)
 				if p != last {
 					last, lastChange = p, time.Now()
-				} else if time.Since(lastChange) > watchdog {
-					stuck = true
-					break watch
 				}
-				// a single request that does not return is a failure even while the others progress
-				now := time.Now().UnixNano()
-				for w := 0; w < nw; w++ {
-					if s0 := atomic.LoadInt64(&started[w]); s0 != 0 && now-s0 > int64(reqDeadline) {
+				// a request in flight beyond its deadline (a single one suffices, even while the others
+				// progress), or no request completing anywhere for the watchdog time: a candidate.  It is
+				// a hang only if those workers are BLOCKED on two samples one second apart (waitDone).
+				overdue := func() []string {
+					now := time.Now().UnixNano()
+					noProgress := atomic.LoadInt64(&progress) == last && time.Since(lastChange) > watchdog
+					var ids []string
+					for w := 0; w < nw; w++ {
+						if s0 := atomic.LoadInt64(&started[w]); s0 != 0 && (now-s0 > int64(reqDeadline) || noProgress) {
+							if id, _ := wgid[w].Load().(string); id != "" {
+								ids = append(ids, id)
+							}
+						}
+					}
+					return ids
+				}
+				if len(overdue()) > 0 {
+					if confirmHung(done, overdue) {
 						stuck = true
 						break watch
 					}
+					last, lastChange = atomic.LoadInt64(&progress), time.Now()
 				}
 			}
 		}
@@ -596,6 +600,7 @@ func firstRequests(seed int64, dur time.Duration) stressResult {
 		nw := len(plan)
 		var ready int32
 		var progress int64
+		gids := newGidSet()
 		current := make([]atomic.Value, nw)
 		panics := make([]string, nw)
 		var wg sync.WaitGroup
@@ -603,6 +608,8 @@ func firstRequests(seed int64, dur time.Duration) stressResult {
 			wg.Add(1)
 			go func(w int) {
 				defer wg.Done()
+				me := gids.enter()
+				defer gids.leave(me)
 				rr := rand.New(rand.NewSource(seed*7919 + int64(round)*131 + int64(w)))
 				atomic.AddInt32(&ready, 1)
 				for spin := 0; atomic.LoadInt32(&ready) < int32(nw); spin++ {
@@ -620,9 +627,7 @@ func firstRequests(seed int64, dur time.Duration) stressResult {
 		}
 		done := make(chan struct{})
 		go func() { wg.Wait(); close(done) }()
-		select {
-		case <-done:
-		case <-time.After(watchdog):
+		if waitDone(done, watchdog, gids.list) {
 			res.Deadlock = true
 			res.Dump = stuckDump()
 			for w := 0; w < nw; w++ {
@@ -781,6 +786,7 @@ func linHistories(seed int64, dur time.Duration) stressResult {
 		var clk int64
 		var ready int32
 		var wg sync.WaitGroup
+		gids := newGidSet()
 		do := func(o *hop) {
 			o.Inv = atomic.AddInt64(&clk, 1)
 			switch o.Op {
@@ -803,6 +809,8 @@ func linHistories(seed int64, dur time.Duration) stressResult {
 			wg.Add(1)
 			go func(c int) {
 				defer wg.Done()
+				me := gids.enter()
+				defer gids.leave(me)
 				atomic.AddInt32(&ready, 1)
 				for spin := 0; atomic.LoadInt32(&ready) < int32(nc); spin++ { // spin barrier: start together
 					if spin > 100000 {
@@ -816,9 +824,7 @@ func linHistories(seed int64, dur time.Duration) stressResult {
 		}
 		done := make(chan struct{})
 		go func() { wg.Wait(); close(done) }()
-		select {
-		case <-done:
-		case <-time.After(watchdog):
+		if waitDone(done, watchdog, gids.list) {
 			res.Hung = true
 			res.Dump = stuckDump()
 			return res
